@@ -434,6 +434,121 @@ def _evaluate_summary(S) -> bool:
                                   or eqx(first, f"np.ones(({COORD}.shape[1],) + self.coefficients.shape)"))
 
 
+def _np_call(e: ast.AST, *names: str) -> bool:
+    return isinstance(e, ast.Call) and (dotted(e.func) or "") in {f"{m}.{k}" for m in ("np", "numpy") for k in names}
+
+
+def _unwrap_array(e: ast.AST) -> ast.AST:
+    while _np_call(e, "array", "asarray", "asanyarray", "ascontiguousarray") and len(e.args) == 1 and not e.keywords:
+        e = e.args[0]
+    return e
+
+
+def _c_order(call: ast.Call, pos=None) -> bool:
+    o = kwarg(call, "order", pos)
+    return o is None or eqx(o, "'C'")
+
+
+def _flat_shape(sh) -> bool:
+    """-1 / (-1,): one axis"""
+    return sh is not None and (eqx(sh, "-1") or eqx(sh, "(-1,)") or eqx(sh, "[-1]"))
+
+
+def _row_shape(sh) -> bool:
+    """(1, -1): the same elements in the same order as a 1 x n row"""
+    return sh is not None and (eqx(sh, "(1, -1)") or eqx(sh, "[1, -1]"))
+
+
+def _reshape_parts(e: ast.AST):
+    """(array, shape, C order?) of array.reshape(shape) / array.reshape(a, b) / np.reshape(array, shape)"""
+    if _np_call(e, "reshape"):
+        return kwarg(e, "a", 0), kwarg(e, "shape", 1) or kwarg(e, "newshape"), _c_order(e, 2)
+    if isinstance(e, ast.Call) and isinstance(e.func, ast.Attribute) and e.func.attr == "reshape":
+        sh = e.args[0] if len(e.args) == 1 else (ast.Tuple(elts=list(e.args), ctx=ast.Load()) if e.args else kwarg(e, "shape"))
+        return e.func.value, sh, _c_order(e)
+    return None
+
+
+def _grid_row(e: ast.AST):
+    """(meshgrid call, k, flattened, kept as 1 x n row) when e is component k of a meshgrid(...) result, possibly flattened in C order"""
+    e = _unwrap_array(e)
+    if isinstance(e, ast.Subscript) and isinstance(e.slice, ast.Constant) and isinstance(e.slice.value, int) and not isinstance(e.slice.value, bool):
+        m = _unwrap_array(e.value)
+        if isinstance(m, ast.Call) and _short(m) == "meshgrid" and e.slice.value in (0, 1):
+            return m, e.slice.value, False, False
+        return None
+    if isinstance(e, ast.Call):
+        inner, as_row = None, False
+        rp = _reshape_parts(e)
+        if rp is not None:
+            if rp[0] is not None and rp[2] and (_flat_shape(rp[1]) or _row_shape(rp[1])):
+                inner, as_row = rp[0], _row_shape(rp[1])
+        elif isinstance(e.func, ast.Attribute) and e.func.attr in ("ravel", "flatten") and not _np_call(e, "ravel") and len(e.args) + len(e.keywords) <= 1 and _c_order(e, 0):
+            inner = e.func.value
+        elif _np_call(e, "ravel") and len(e.args) == 1 and _c_order(e, 1):
+            inner = e.args[0]
+        r = _grid_row(inner) if inner is not None else None
+        return (r[0], r[1], True, as_row) if r is not None else None
+    return None
+
+
+def _grid_rows(e: ast.AST):
+    """the rows of a (2, ...) array built from a meshgrid(...) result: [(meshgrid call, k, flattened, 1 x n row)], None when the construction
+    is not understood"""
+    e = _unwrap_array(e)
+    if isinstance(e, ast.Call) and _short(e) == "meshgrid":
+        return [(e, 0, False, False), (e, 1, False, False)] if len(e.args) == 2 else None
+    if isinstance(e, (ast.Tuple, ast.List)):
+        rows = [_grid_row(x) for x in e.elts]
+        return rows if rows and all(r is not None for r in rows) else None
+    if _np_call(e, "stack", "vstack", "concatenate"):
+        kind = _short(e)
+        seq = kwarg(e, "tup", 0) if kind == "vstack" else kwarg(e, "arrays", 0)
+        ax = kwarg(e, "axis", 1) if kind != "vstack" else None
+        if seq is None or (ax is not None and not eqx(ax, "0")):
+            return None
+        rows = _grid_rows(seq)
+        if rows is None:
+            return None
+        # np.stack puts a new leading axis in front of equal-shaped pieces; np.vstack / np.concatenate join rows that are already there
+        if kind == "stack":
+            return rows if not any(r[3] for r in rows) else None
+        if kind == "vstack":
+            return [r[:3] + (False,) for r in rows] if all(r[2] for r in rows) else None
+        return [r[:3] + (False,) for r in rows] if all(r[2] and r[3] for r in rows) else None
+    if _np_call(e, "flip") and kwarg(e, "axis", 1) is not None and eqx(kwarg(e, "axis", 1), "0"):
+        rows = _grid_rows(kwarg(e, "m", 0))
+        return rows[::-1] if rows is not None else None
+    rp = _reshape_parts(e)
+    if rp is not None:
+        inner, sh, okc = rp
+        rows = _grid_rows(inner) if inner is not None else None
+        # (2, n, n) -> (2, n * n) in C order flattens each component separately
+        if rows is None or not isinstance(sh, (ast.Tuple, ast.List)) or len(sh.elts) != 2 or not eqx(sh.elts[0], "2") or len(rows) != 2 or any(r[3] for r in rows):
+            return None
+        return [(m, k, okc, False) for m, k, _, _ in rows]      # any other memory order interleaves the components differently: not "flattened in C order"
+    return None
+
+
+def _points_grid(gp: ast.AST, P_GRID: str) -> bool:
+    """gp is meshgrid(rz, rp, indexing='ij') with each of the two components flattened in C order, rz component first"""
+    mg = {nf(c): c for c in ast.walk(gp) if isinstance(c, ast.Call) and _short(c) == "meshgrid"}
+    if len(mg) != 1:
+        return False
+    (m,) = mg.values()
+    ind = kwarg(m, "indexing")
+    if not (len(m.args) == 2 and eqx(m.args[0], f"{P_GRID}.rzValues") and eqx(m.args[1], f"{P_GRID}.rpValues") and ind is not None and eqx(ind, "'ij'")
+            and all(k.arg == "indexing" for k in m.keywords)):
+        return False
+    rows = _grid_rows(gp)
+    if rows is not None:
+        return [r[1:] for r in rows] == [(0, True, False), (1, True, False)]
+    # a construction that is not decoded: the (single) meshgrid result is used as a whole
+    occurrences = [c for c in ast.walk(gp) if isinstance(c, ast.Call) and _short(c) == "meshgrid"]
+    picked = [x for x in ast.walk(gp) if isinstance(x, ast.Subscript) and isinstance(_unwrap_array(x.value), ast.Call) and _short(_unwrap_array(x.value)) == "meshgrid"]
+    return len(occurrences) == 1 and not picked
+
+
 def r14_4(chk: Check) -> None:
     S = chk.src
     fi = S.func(f"{CA}.interpolateCollisionArray")
@@ -469,12 +584,7 @@ def r14_4(chk: Check) -> None:
     ev = facts.get("evaluate")
     # points grid: meshgrid(rz, rp, indexing='ij').reshape((2, (N-1)**2))  -> points == pz (x) pp in C order
     gp = kwarg(ev, "compactCoord", 0) if ev is not None else None
-    okg = False
-    if gp is not None:
-        mg = [c for c in ast.walk(gp) if isinstance(c, ast.Call) and _short(c) == "meshgrid"]
-        if len(mg) == 1:
-            ind = kwarg(mg[0], "indexing")
-            okg = len(mg[0].args) == 2 and eqx(mg[0].args[0], f"{P_GRID}.rzValues") and eqx(mg[0].args[1], f"{P_GRID}.rpValues") and ind is not None and eqx(ind, "'ij'")
+    okg = gp is not None and _points_grid(gp, P_GRID)
     chk.ob("R14.4", fi.where(), "evaluation points are meshgrid(rz, rp, indexing='ij') flattened: point index == pz (x) pp in C order", okg,
            n(gp)[:160] if gp is not None else "", key="points-grid")
     # evaluate along axes (1, 2) with the points grid
